@@ -232,8 +232,24 @@ static int recv_events(m_ctx_t *c, int timeout) {
     fetch_ms(&now, NULL);
     c->stats.idle_time += now - last_time_called;
 
+    /*
+     * User callbacks run while processing this batch may pause, stop or deregister
+     * modules owning sources that are part of this very batch:
+     * keep every source of the batch alive until the batch has been processed,
+     * and skip the ones that left the poll set in the meantime.
+     */
+    const int batch_len = nfds > 0 ? nfds : 0;
+    ev_src_t *batch[batch_len + 1];
+    for (int i = 0; i < batch_len; i++) {
+        batch[i] = m_mem_ref(poll_recv(&c->ppriv, i));
+    }
+
     for (int i = 0; i < nfds && !err; i++) {
-        ev_src_t *p = poll_recv(&c->ppriv, i);
+        ev_src_t *p = batch[i];
+        if (p && !p->ev) {
+            /* Source was removed from the poll set by a callback of this batch: its event is void */
+            continue;
+        }
         if (p) {
             M_ASSERT(p->process);
             if (!p->mod) {
@@ -309,6 +325,10 @@ static int recv_events(m_ctx_t *c, int timeout) {
             err = EAGAIN;
             M_WARN("Received message without proper source: src -> %p\n", p);
         }
+    }
+
+    for (int i = 0; i < batch_len; i++) {
+        m_mem_unref(batch[i]);
     }
 
     if (recved > 0 && err == 0) {
